@@ -5,8 +5,8 @@ use educe::Educe;
 use core::cmp::Ordering;
 #[derive(Educe)]
 #[educe(Hash)]
-pub enum T { A, Zed { #[educe(Hash(ignore = true))] _0: A<0>, #[educe(Hash(method("m_hash")))] size: A<0>, other: A<2> } }
-pub fn values() -> Vec<T> { vec![T::A, T::Zed { _0: A(0), size: A(0), other: A(7) }, T::Zed { _0: A(0), size: A(7), other: A(1) }, T::Zed { _0: A(1), size: A(0), other: A(0) }, T::Zed { _0: A(1), size: A(7), other: A(0) }, T::Zed { _0: A(7), size: A(7), other: A(0) }, T::Zed { _0: A(0), size: A(0), other: A(1) }, T::Zed { _0: A(1), size: A(1), other: A(1) }, T::Zed { _0: A(1), size: A(1), other: A(7) }, T::Zed { _0: A(0), size: A(7), other: A(7) }, T::Zed { _0: A(7), size: A(1), other: A(1) }, T::Zed { _0: A(1), size: A(7), other: A(1) }, T::Zed { _0: A(0), size: A(1), other: A(0) }, T::Zed { _0: A(7), size: A(0), other: A(1) }, T::Zed { _0: A(7), size: A(1), other: A(7) }, T::Zed { _0: A(7), size: A(0), other: A(0) }, T::Zed { _0: A(7), size: A(7), other: A(7) }, T::Zed { _0: A(1), size: A(7), other: A(7) }, T::Zed { _0: A(7), size: A(7), other: A(1) }, T::Zed { _0: A(0), size: A(1), other: A(7) }, T::Zed { _0: A(7), size: A(0), other: A(7) }, T::Zed { _0: A(1), size: A(0), other: A(1) }, T::Zed { _0: A(0), size: A(7), other: A(0) }, T::Zed { _0: A(7), size: A(1), other: A(0) }, T::Zed { _0: A(0), size: A(0), other: A(0) }] }
-pub fn show(x: &T) -> String { #[allow(unused_variables)] match x { T::A => format!("A()"), T::Zed { _0: p0, size: p1, other: p2 } => format!("Zed({},{},{})", sv(p0), sv(p1), sv(p2)) } }
-pub fn o_hash(x: &T) -> Vec<String> { let mut e = Rec::default(); match x { T::A => { ::core::hash::Hash::hash(&0usize, &mut e); }, T::Zed { _0: p0, size: p1, other: p2 } => { ::core::hash::Hash::hash(&1usize, &mut e); m_hash(p1, &mut e); ::core::hash::Hash::hash(p2, &mut e); } } e.0 }
+pub enum T { None(A<0>, #[educe(Hash(ignore(true)))] A<0>), Some(#[educe(Hash(method = m_hash))] A<0>, A<0>) }
+pub fn values() -> Vec<T> { vec![T::None(A(0), A(0)), T::None(A(0), A(1)), T::None(A(0), A(7)), T::None(A(1), A(0)), T::None(A(1), A(1)), T::None(A(1), A(7)), T::None(A(7), A(0)), T::None(A(7), A(1)), T::None(A(7), A(7)), T::Some(A(0), A(0)), T::Some(A(0), A(1)), T::Some(A(0), A(7)), T::Some(A(1), A(0)), T::Some(A(1), A(1)), T::Some(A(1), A(7)), T::Some(A(7), A(0)), T::Some(A(7), A(1)), T::Some(A(7), A(7))] }
+pub fn show(x: &T) -> String { #[allow(unused_variables)] match x { T::None(p0, p1) => format!("None({},{})", sv(p0), sv(p1)), T::Some(p0, p1) => format!("Some({},{})", sv(p0), sv(p1)) } }
+pub fn o_hash(x: &T) -> Vec<String> { let mut e = Rec::default(); match x { T::None(p0, p1) => { ::core::hash::Hash::hash(&0usize, &mut e); ::core::hash::Hash::hash(p0, &mut e); }, T::Some(p0, p1) => { ::core::hash::Hash::hash(&1usize, &mut e); m_hash(p0, &mut e); ::core::hash::Hash::hash(p1, &mut e); } } e.0 }
 pub fn run(out: &mut Out) { let vs = values(); for a in &vs { let mut g = Rec::default(); ::core::hash::Hash::hash(a, &mut g); let e = o_hash(a); out.check(g.0 == e, "hash_4", "hash", || format!("hash({}) fed {:?} expected {:?}", show(a), g.0, e)); } }
